@@ -127,7 +127,7 @@ Print Assumptions C02_unique_refuted.
 (* D2: overlapping pools in VRF 1 and VRF 2; IPoE session 1 (VRF 1) releases 10.0.0.1 by IP *)
 Definition w2_init := init_state [new_pool F4 1 0 1 (GRange a1 a1 []); new_pool F4 2 0 2 (GRange a1 a1 [])]
                                  [new_sess 1 false (Some 0) None 1; new_sess 2 true (Some 0) None 2; new_sess 3 true (Some 0) None 3].
-Definition w2_ops := [ID true 1 1 None None; PA 2 2 None None None None None None; IR 1;
+Definition w2_ops := [ID true true None 1 1 None None; PA 2 2 None None None None None None; IR 1;
                       PA 3 2 None None None None None None].
 (* today's code: session 2 (VRF 2, still live) and session 3 (VRF 2) both hold 10.0.0.1 *)
 Theorem C02_release_only_own_refuted :
@@ -139,7 +139,7 @@ Print Assumptions C02_release_only_own_refuted.
 (* D3: admin terminate keeps the DHCPv4 lease; after its expiry the take-over frees the new holder's lease *)
 Definition w3_init := init_state [new_pool F4 1 0 0 (GRange a1 a1 [])]
                                  [new_sess 1 false (Some 0) None 1; new_sess 2 false (Some 0) None 2; new_sess 3 true (Some 0) None 3].
-Definition w3_ops := [ID false 1 0 None None; ID true 1 0 None None; IT 1; IA 1; ID false 2 0 (Some a1) None;
+Definition w3_ops := [ID false false None 1 0 None None; ID true true None 1 0 None None; IT 1; IA 1; ID false false None 2 0 (Some a1) None;
                       PA 3 0 None None None None None None].
 (* today's code: session 2 is offered 10.0.0.1, the registry holds nothing for it, session 3 gets 10.0.0.1 *)
 Theorem C02_told_is_recorded_refuted :
@@ -180,7 +180,7 @@ Print Assumptions C02_nonvacuous.
    which two live sessions of one VRF hold (different) addresses *)
 Definition w4_ps := [new_pool F4 1 0 0 (GRange a1 a2 [])].
 Definition w4_ss := [new_sess 1 true (Some 0) None 1; new_sess 2 false (Some 0) None 2].
-Definition w4_ops := [PA 1 0 None None None None None None; ID true 2 0 None None; PI 1 (Some a1)].
+Definition w4_ops := [PA 1 0 None None None None None None; ID true true None 2 0 None None; PI 1 (Some a1)].
 Example C02_unique_nonvacuous :
   NoDup (map pool_id w4_ps) /\ Forall pool_wf w4_ps /\ kinds_ok (mkReg w4_ps []) /\ pools_disjoint (mkReg w4_ps []) /\
   NoDup (map s_id w4_ss) /\ Forall fresh_sess w4_ss /\
